@@ -506,4 +506,38 @@ theorem posOkB_iff (h : Heap) : posOkB h = true ↔ ∀ i, i < h.used → h.pos.
   unfold posOkB
   simp only [List.all_eq_true, List.mem_range, beq_iff_eq]
 
+
+/-! ### allocation failure (the realloc oracle says no) -/
+
+theorem reserve_noop (h : Heap) (e : Nat) (hroom : h.used + e < h.allocated) : reserve h e = h := by
+  unfold reserve; rw [if_pos hroom]
+
+theorem reserveO_ok (h : Heap) (e : Nat) : reserveO true h e = (reserve h e, true) := by
+  unfold reserveO
+  split
+  · next hroom => rw [reserve_noop h e hroom]
+  · rfl
+
+/-- a failing allocator leaves the heap exactly as it was; the call reports failure iff it
+    needed the allocator at all -/
+theorem reserveO_fail (h : Heap) (e : Nat) : reserveO false h e = (h, !reserveAllocs h e) := by
+  unfold reserveO reserveAllocs
+  split <;> simp [*]
+
+theorem pushO_ok (better : Nat → Nat → Bool) (h : Heap) (x : Nat) : pushO true better h x = (push better h x, true) := by
+  unfold pushO
+  split
+  · rw [reserveO_ok]; rfl
+  · rfl
+
+theorem pushO_fail (better : Nat → Nat → Bool) (h : Heap) (x : Nat) :
+    pushO false better h x = if h.used ≥ h.allocated then (h, false) else (push better h x, true) := by
+  unfold pushO
+  split
+  · next hfull =>
+    rw [reserveO_fail]
+    have : reserveAllocs h 1 = true := by unfold reserveAllocs; simp; omega
+    simp [this]
+  · rfl
+
 end UsualProofs.C15.HeapP
